@@ -117,7 +117,7 @@ class Scheduler(PureScheduler, AbstractJob):
         if pure is True:
             return pure
         # non-critical : we're done
-        if not self.critical:
+        if not self.is_critical():
             return pure
         # a timeout
         if self.failed_time_out():
@@ -127,7 +127,7 @@ class Scheduler(PureScheduler, AbstractJob):
             # need to find at least one critical job
             # that has raised an exception
             for job in self.jobs:
-                if not job.critical:
+                if not job.is_critical():
                     continue
                 exc = job.raised_exception()
                 if exc:
